@@ -199,7 +199,15 @@ def gen_case(r, n):
     else:
         c["first"] = "serializer"
         c["how"] = r.choice(["id0", "id5", "id42", "id255", "undecodable", "wrong-ser-for-payload", "compressed-flag-on-raw"])
+    if c["first"] == "connect" and r.random() < 0.5:
+        # entries beside "handshake" and "object": the statement gives them no meaning, so whatever they say, an unknown object or a
+        # refusing validator must still end in a connect-failure with nothing run (option-like names a future client might send)
+        c["extra"] = {r.choice(EXTRA_KEYS): r.choice([False, None, 0, True, "", [], 1, "no"]) for _ in range(r.randrange(1, 4))}
     return c
+
+
+EXTRA_KEYS = ["meta", "metadata", "known", "reconnect", "resume", "session", "validate", "skip", "trusted", "auth", "force", "ping", "stream",
+              "oneway", "flags", "serializer", "handshake_done", "connected", "id", "objectid", "Object", "name", "uri", "weak", "check"]
 
 
 def first_bytes(P, c, r):
@@ -209,10 +217,11 @@ def first_bytes(P, c, r):
     f = c["first"]
     if f == "connect":
         objid = c["objid"]
+        extra = c.get("extra") or {}
         try:
-            data = ser.dumps({"handshake": hs, "object": objid})
+            data = ser.dumps(dict(extra, handshake=hs, object=objid))
         except Exception:
-            data = ser.dumps({"handshake": hs, "object": "nosuch"})
+            data = ser.dumps(dict(extra, handshake=hs, object="nosuch"))
             c["objid"] = "nosuch"
         return wire.encode(wire.CONNECT, 0, 0, ser.serializer_id, data)
     if f == "connect-shape":
@@ -456,7 +465,7 @@ def classify_accept(c):
 
 
 def describe(c):
-    return "{%s}" % ", ".join("%s=%r" % (k, c[k]) for k in ("first", "mode", "objid", "shape", "msgtype", "tflags", "empty", "how", "ser") if k in c)
+    return "{%s}" % ", ".join("%s=%r" % (k, c[k]) for k in ("first", "mode", "objid", "extra", "shape", "msgtype", "tflags", "empty", "how", "ser") if k in c)
 
 
 def describe_reply(P, m):
